@@ -69,14 +69,16 @@ def run(ctx):
     ctx.anchor("compute modules with dispatch_map", len(L.mods), 82)
     n_entries = 0
     n_templates = 0
+    n_new_native = 0
+    new_native = []
+    undecided_templates = []
     for mn in L.mods:
         short = L.short(mn)
         sh = LF.shapes[mn]
         frozen = bases.get(short)
         if frozen is None:
-            ctx.ob("C01.template", f"{short}", False,
-                   "module has no frozen bases in tables/bases.json (a new compute module: read it, then add its bases with reasons)")
-            continue
+            # a compute module added after the freeze: no base table yet - every entry goes through the E3b fallback below
+            frozen = {}
         by_name = {e.signame: e for e in sh.entries}
         tmpl_of = {}
         for e in sh.entries:
@@ -95,15 +97,33 @@ def run(ctx):
             hit = base_t.get(t)
             wit = None
             msg = ""
+            ok_t = hit is not None
             if hit is None:
                 # nearest base: same result descriptor kinds, first differing component
                 near, comp = _nearest(t, base_t)
                 msg = (f"template matches none of the module's {len(base_t)} frozen bases"
-                       + (f"; nearest base [{near}] differs in {comp}" if near else "")
-                       + " — if this is a new legitimate native formula, add it to tables/bases.json with a reason")
+                       + (f"; nearest base [{near}] differs in {comp}" if near else ""))
                 wit = {"lifted": [ir.show(o)[:400] for o in outs], "declared": L.ret_name(e.ret)}
-            ctx.ob("C01.template", e.name, hit is not None, msg, wit, fn_where(e.fn),
-                   sample={"base": hit, "lifted": [ir.show(o)[:160] for o in outs]})
+                if short.split(".")[1] not in denote.COMPARISON_POLICY:
+                    # a formula that is not one of the frozen bases may still be right (a new native variant): decide it by E3b
+                    recs = list(denote.single_entry_agreement(L, e))
+                    bad = [r for r in recs if r.status == "refuted"]
+                    if bad:
+                        msg += "; and " + "; ".join(f"{r.construct}: {r.message}" for r in bad[:2])
+                        wit["e3b"] = bad[0].witness
+                    elif recs and all(r.status == "proved" for r in recs):
+                        ok_t = True
+                        n_new_native += 1
+                        new_native.append(e.name)
+                    elif recs:
+                        # neither proved nor refuted: not claimed, not reported
+                        undecided_templates.append(e.name)
+                        ok_t = None
+                else:
+                    msg += " — comparison modules compare in the operands' common system: a new formula there has to be read and added to tables/bases.json with a reason"
+            if ok_t is not None:
+                ctx.ob("C01.template", e.name, ok_t, msg, wit, fn_where(e.fn),
+                       sample={"base": hit, "lifted": [ir.show(o)[:160] for o in outs]})
             # result shape
             ok, msg = _shape_ok(L, e, t, outs)
             ctx.ob("C01.result-shape", e.name, ok, msg, None, fn_where(e.fn))
@@ -132,6 +152,10 @@ def run(ctx):
     ctx.analysed["entries"] = n_entries
     ctx.analysed["base_templates"] = n_templates
     ctx.analysed["modules"] = len(L.mods)
+    ctx.analysed["entries_outside_frozen_bases_proved_by_e3b"] = new_native
+    ctx.analysed["entries_outside_frozen_bases_undecided"] = undecided_templates
+    if undecided_templates:
+        ctx.decline("entries whose template is not a frozen base and whose Cartesian denotation is neither proved equal to the Cartesian entry nor refuted: " + ", ".join(undecided_templates))
     ctx.decline("agreement of the per-system comparison modules (equal, not_equal, isclose) across systems: comparing in the operands' common system is the module's stated policy and tolerances are not coordinate-invariant")
     ctx.decline("float64 rounding differences between variants")
     ctx.decline("run-time wrapping of results by the backends (C03) and pass-through of higher coordinates")
